@@ -1,4 +1,5 @@
 import GoRedisModel.Proofs.Interleave
+import GoRedisModel.Proofs.SourceFacts
 /-! # C08 — password gate: nothing but AUTH runs before the exact password was presented -/
 namespace GoRedis
 
@@ -97,5 +98,10 @@ example : (writesOf (serve (fun _ => none) { authPw := some b!"secret" } true
 /-- the exact password, then PING -/
 example : writesOf (serve (fun _ => none) { authPw := some b!"secret" } true
     b!"*2\r\n$4\r\nAUTH\r\n$6\r\nsecret\r\n*1\r\n$4\r\nPING\r\n" []) = [b!"+OK\r\n", b!"+PONG\r\n"] := by decide +kernel
+
+/-- in the current source the authorization check precedes the (single) executor call of command dispatch and exempts
+only AUTH (regenerated on every run) -/
+theorem C08_source_gate : (factHolds "authGateBeforeExecutor" && factHolds "authGateExemptsOnlyAuth") = true :=
+  source_auth_gate
 
 end GoRedis
